@@ -517,6 +517,35 @@ class Fn:
 
 # --------------------------------------------------------------------------- program
 
+def _param_names(rec):
+    out = [None] * (rec.get("arg_count", 0) + 1)
+    for v in rec.get("vars", []):
+        pl = v.get("place") or {}
+        if not pl.get("p") and isinstance(pl.get("l"), int) and 1 <= pl["l"] <= rec.get("arg_count", 0) and out[pl["l"]] is None:
+            out[pl["l"]] = v["name"]
+    return out[1:]
+
+
+def _canonical_upvars(fns, known_params):
+    """A closure / async body names the variables it captures.  When such a variable is a parameter of the enclosing
+    function, the rules refer to it by the name that parameter had in the tree they were written against
+    (known_params.json, by position) - so renaming a parameter changes nothing for the rules."""
+    if not known_params:
+        return
+    for k, rec in fns.items():
+        ups = rec.get("upvars")
+        root = rec.get("root")
+        if not ups or not root or root not in fns or root not in known_params:
+            continue
+        cur = _param_names(fns[root])
+        canon = known_params[root]
+        if len(cur) != len(canon):
+            continue
+        m = {c: k_ for c, k_ in zip(cur, canon) if c and k_ and c != k_}
+        if m:
+            rec["upvars"] = [m.get(u.lstrip("*"), u) if not u.startswith("*") else "*" + m.get(u[1:], u[1:]) for u in ups]
+
+
 class Program:
     def __init__(self, facts_dir, info=None):
         self.dir = facts_dir
@@ -531,6 +560,7 @@ class Program:
         self.expanded = {}       # fn key -> [(combinator, line)]: iterator pipelines / Option-Result combinators rewritten as loops / matches
         self.inlined = {}        # caller key -> [(helper key, line)]: new helpers expanded at their call sites
         known = inlinemod.load_known()
+        known_params = inlinemod.load_known_params()
         for t in factsmod.EXPECTED_TARGETS:
             path = os.path.join(facts_dir, t + ".json")
             if not os.path.isfile(path):
@@ -540,6 +570,7 @@ class Program:
             if d.get("schema") != factsmod.SCHEMA:
                 raise AnchorMissing("fact schema mismatch in %s" % t)
             self.targets[t] = d
+            _canonical_upvars(d["fns"], known_params)
             for _round in range(3):
                 erep = expandmod.expand_all(d["fns"]) if EXPAND else {}
                 for k, v in erep.items():
